@@ -20,20 +20,24 @@ Section FLf.
 
   (* ---------- print ---------- *)
   Lemma fl_print : forall N nl a next ty, flc p cp N a -> flw p cp N next ->
-    flw p cp N (FPrint nl a next ty) /\ flc p cp N (FPrint nl a next ty).
+    flw p cp N (FPrint nl a next ty).
   Proof.
     intros N nl a next ty Ha Hnext.
     assert (HW : flw p cp N (FPrint nl a next ty)).
-    { intros n Hn G cur cont st s st' e ce k Hwc Hf Hws Hnc Hl HG Hbn Hni H8 Hsh He HCK.
+    { intros n Hn G cur cont st s st' e ce k Hwc Hf Hkd Hws Hnc Hl HG Hbn Hni H8 Hsh He HCK.
       rewrite wc_unfold in Hwc. apply wc_print_inv in Hwc. destruct Hwc as [a' [st1 [next' [Hca [Hwn Es]]]]]. subst s.
-      simpl in Hf, Hws, Hnc.
+      simpl in Hf, Hkd, Hws, Hnc.
       apply andb_prop in Hf. destruct Hf as [Hf1 Hf2]. apply andb_prop in Hws. destruct Hws as [Hw1 Hw2].
       apply andb_prop in Hnc. destruct Hnc as [Hn1 Hn2].
+      apply andb_prop in Hkd. destruct Hkd as [Hkd Hsame]. apply andb_prop in Hkd. destruct Hkd as [Hkd Hta].
+      apply andb_prop in Hkd. destruct Hkd as [Hka Hkn]. apply negb_true_iff in Hta. apply Bool.eqb_prop in Hsame.
+      assert (Hkind : tkind p (FPrint nl a next ty) = tkind p next) by (unfold tkind at 1; simpl; symmetry; exact Hsame).
+      rewrite Hkind in *.
       assert (Hg1 : grows st st1) by (eapply cmp_grows; exact Hca).
       assert (Hg2 : grows st1 st') by (eapply wc_grows; exact Hwn).
       destruct n as [|n1]; [apply sim_zero|].
       eapply sim_fstep; [reflexivity|]. apply sim_cstep. simpl.
-      apply (Ha n1 ltac:(lia) G cur CI64 st a' st1 e ce _ _ Hca Hf1 Hw1 Hn1).
+      apply (Ha n1 ltac:(lia) G cur CI64 st a' st1 e ce _ _ Hca Hf1 Hka Hta Hw1 Hn1).
       - eapply lifted_ok_grows; eauto.
       - exact HG.
       - intros z Hz. apply Hbn. simpl. apply in_or_app. left. exact Hz.
@@ -45,7 +49,7 @@ Section FLf.
           [|eapply sim_stuck; reflexivity].
         apply vrel_int in Hv. subst pv. apply sim_cstep. simpl.
         eapply sim_out; [reflexivity|].
-        apply (Hnext j1 ltac:(lia) G cur cont st1 next' st' e ce k Hwn Hf2 Hw2 Hn2 Hl).
+        apply (Hnext j1 ltac:(lia) G cur cont st1 next' st' e ce k Hwn Hf2 Hkn Hw2 Hn2 Hl).
         + eapply Gused_grows; eauto.
         + eapply incl_grows; [|exact Hg1]. intros z Hz. apply Hbn. simpl. apply in_or_app. right. exact Hz.
         + eapply names_in_grows; eauto.
@@ -54,47 +58,50 @@ Section FLf.
         + eapply erel_weaken; [exact He | | lia]. apply Sof_incl. intros bb Hx. apply fvs_print. right. exact Hx.
         + eapply CK_transfer; [exact Hsh | exact HCK | | lia]. intros z0 _ Hz0. split; [|reflexivity].
           revert Hz0. apply Sof_incl. intros bb Hx. apply fvs_print. right. exact Hx. }
-    split; [exact HW|].
-    apply (flc_default p cp N (FPrint nl a next ty)
-             (fun cur => wc_print nl (cmp (codata_of p) cur false a CI64) (wc (codata_of p) cur false next))); [| |exact HW].
-    - intros cur cont. apply wc_unfold.
-    - intros cur ty0. apply cmp_unfold.
+    exact HW.
   Qed.
 
   (* ---------- sharing a continuation (conditionals, case) ---------- *)
   Lemma shared_CK : forall n cur (small : bool) cont st cont1 st0 k ce (S : cident -> Prop),
     (if small then cont1 = cont /\ st0 = st else share cur cont st = Ok (cont1, st0)) ->
     (small = false -> cont_is_small cont = false) ->
-    cont_shape cp cont -> names_in (cnames (fvt cont)) st -> lifted_ok cp st0 ->
-    CK p cp n k cont ce S ->
-    CK p cp n k cont1 ce S /\ cont_shape cp cont1 /\ grows st st0 /\
+    cont_shape cp false cont -> names_in (cnames (fvt cont)) st -> lifted_ok cp st0 ->
+    CK p cp n false k cont ce S ->
+    CK p cp n false k cont1 ce S /\ cont_shape cp false cont1 /\ grows st st0 /\
     (forall bb, In bb (fvt cont1) -> In bb (fvt cont)).
   Proof.
     intros n cur small cont st cont1 st0 k ce S Hshare Hns Hsh Hni Hl HCK. destruct small.
     - destruct Hshare; subst. split; [exact HCK|]. split; [exact Hsh|]. split; [apply grows_refl | auto].
     - destruct (share_CK p cp n cur cont st cont1 st0 k ce S Hshare (Hns eq_refl) Hsh Hni Hl HCK) as [H1 H2].
       split; [exact H1|]. split; [exact H2|]. split; [eapply share_grows; exact Hshare|].
-      apply (share_fvt cur cont st cont1 st0 Hshare). apply (cont_shape_cns cp). exact Hsh.
+      apply (share_fvt cur cont st cont1 st0 Hshare). apply (cont_shape_cns cp false). exact Hsh.
   Qed.
 
   (* ---------- conditionals ---------- *)
   Lemma fl_ifc : forall N so a b t1 t2 ty,
     flc p cp N a -> match b with Some b' => flc p cp N b' | None => True end ->
     flw p cp N t1 -> flw p cp N t2 ->
-    flw p cp N (FIfC so a b t1 t2 ty) /\ flc p cp N (FIfC so a b t1 t2 ty).
+    flw p cp N (FIfC so a b t1 t2 ty).
   Proof.
     intros N so a b t1 t2 ty Ha Hb0 H1 H2.
     assert (HW : flw p cp N (FIfC so a b t1 t2 ty)).
-    { intros n Hn G cur cont st s st' e ce k Hwc Hf Hws Hnc Hl HG Hbn Hni H8 Hsh He HCK.
+    { intros n Hn G cur cont st s st' e ce k Hwc Hf Hkd Hws Hnc Hl HG Hbn Hni H8 Hsh He HCK.
       rewrite wc_unfold in Hwc. apply wc_ifc_inv in Hwc.
       destruct Hwc as [cont1 [st0 [a' [sta [b' [stb [t' [stt [e' [Hshare [Hca [Hcb [Hwt [Hwe Es]]]]]]]]]]]]]]. subst s.
-      simpl in Hf, Hws, Hnc.
+      simpl in Hf, Hkd, Hws, Hnc.
       apply andb_prop in Hf. destruct Hf as [Hf Hf3]. apply andb_prop in Hf. destruct Hf as [Hf Hf2].
       apply andb_prop in Hf. destruct Hf as [Hf1 Hfb].
       apply andb_prop in Hws. destruct Hws as [Hw Hw3]. apply andb_prop in Hw. destruct Hw as [Hw Hw2].
       apply andb_prop in Hw. destruct Hw as [Hw1 Hwb].
       apply andb_prop in Hnc. destruct Hnc as [Hnn Hn3]. apply andb_prop in Hnn. destruct Hnn as [Hnn Hn2].
       apply andb_prop in Hnn. destruct Hnn as [Hn1 Hnb].
+      apply andb_prop in Hkd. destruct Hkd as [Hkd Hkty]. apply andb_prop in Hkd. destruct Hkd as [Hkd Hkt2].
+      apply andb_prop in Hkd. destruct Hkd as [Hkd Hkt1]. apply andb_prop in Hkd. destruct Hkd as [Hkd Hkta].
+      apply andb_prop in Hkd. destruct Hkd as [Hkd Hk2]. apply andb_prop in Hkd. destruct Hkd as [Hkd Hk1].
+      apply andb_prop in Hkd. destruct Hkd as [Hka Hkb].
+      apply negb_true_iff in Hkty. apply negb_true_iff in Hkt2. apply negb_true_iff in Hkt1. apply negb_true_iff in Hkta.
+      assert (Hkind : tkind p (FIfC so a b t1 t2 ty) = false) by (unfold tkind; simpl; exact Hkty).
+      rewrite Hkind in *.
       assert (Hga : grows st0 sta) by (eapply cmp_grows; exact Hca).
       assert (Hgb : grows sta stb).
       { destruct b as [b0|]; [destruct Hcb as [b1 [Hcb _]]; eapply cmp_grows; exact Hcb | destruct Hcb; subst; apply grows_refl]. }
@@ -112,7 +119,7 @@ Section FLf.
       assert (Hbr : forall i, (i < n)%nat -> forall c : bool,
                 sim p cp i (FEval (if c then t1 else t2) e k) (SNext (Run (if c then t' else e') ce))).
       { intros i Hi c. destruct c.
-        - apply (H1 i ltac:(lia) G cur cont1 stb t' stt e ce k Hwt Hf2 Hw2 Hn2).
+        - rewrite <- Hkt1 in Hsh1, HCK1. apply (H1 i ltac:(lia) G cur cont1 stb t' stt e ce k Hwt Hf2 Hk1 Hw2 Hn2).
           + exact Lstt.
           + eapply Gused_grows; [exact HG | exact G2].
           + eapply incl_grows; [|exact G2].
@@ -125,7 +132,7 @@ Section FLf.
           + eapply erel_weaken; [exact He | | lia]. apply Sof_incl. intros bb Hx. apply fvs_ifc. right. right. left. exact Hx.
           + eapply CK_transfer; [exact Hsh1 | exact HCK1 | | lia]. intros z0 _ Hz0. split; [|reflexivity].
             revert Hz0. apply Sof_incl. intros bb Hx. apply fvs_ifc. right. right. left. exact Hx.
-        - apply (H2 i ltac:(lia) G cur cont1 stt e' st' e ce k Hwe Hf3 Hw3 Hn3 Hl).
+        - rewrite <- Hkt2 in Hsh1, HCK1. apply (H2 i ltac:(lia) G cur cont1 stt e' st' e ce k Hwe Hf3 Hk2 Hw3 Hn3 Hl).
           + eapply Gused_grows; [exact HG | exact G3].
           + eapply incl_grows; [|exact G3].
             intros z Hz. apply Hbn. simpl. rewrite !in_app_iff. tauto.
@@ -139,7 +146,7 @@ Section FLf.
             revert Hz0. apply Sof_incl. intros bb Hx. apply fvs_ifc. right. right. right. exact Hx. }
       destruct n as [|n1]; [apply sim_zero|].
       eapply sim_fstep; [reflexivity|]. apply sim_cstep. simpl.
-      apply (Ha n1 ltac:(lia) G cur CI64 st0 a' sta e ce _ _ Hca Hf1 Hw1 Hn1).
+      apply (Ha n1 ltac:(lia) G cur CI64 st0 a' sta e ce _ _ Hca Hf1 Hka Hkta Hw1 Hn1).
       - exact Lsta.
       - eapply Gused_grows; [exact HG | exact Hg0].
       - eapply incl_grows; [|exact Hg0]. intros z Hz. apply Hbn. simpl. rewrite !in_app_iff. tauto.
@@ -153,8 +160,9 @@ Section FLf.
         destruct b as [b0|].
         + (* two operands *)
           destruct Hcb as [b1 [Hcb Eb]]. subst b'.
+          apply andb_prop in Hkb. destruct Hkb as [Hkb Hktb]. apply negb_true_iff in Hktb.
           eapply sim_fstep; [reflexivity|]. apply sim_cstep. simpl.
-          apply (Hb0 j1 ltac:(lia) G cur CI64 sta b1 stb e ce _ _ Hcb Hfb Hwb Hnb).
+          apply (Hb0 j1 ltac:(lia) G cur CI64 sta b1 stb e ce _ _ Hcb Hfb Hkb Hktb Hwb Hnb).
           * exact Lstb.
           * eapply Gused_grows; [exact HG | exact G1].
           * eapply incl_grows; [|exact G1].
@@ -172,12 +180,6 @@ Section FLf.
           destruct Hcb as [Eb Est]. subst b' stb.
           eapply sim_fstep; [reflexivity|]. apply sim_cstep. simpl. rewrite ax_ifsort_sort_of.
           apply (Hbr j1 ltac:(lia) (eval_cmp (ax_fifsort so) x 0)). }
-    split; [exact HW|].
-    apply (flc_default p cp N (FIfC so a b t1 t2 ty)
-             (fun cur => wc_ifc cur so (cmp (codata_of p) cur false a CI64)
-                           (match b with Some b' => Some (cmp (codata_of p) cur false b' CI64) | None => None end)
-                           (wc (codata_of p) cur false t1) (wc (codata_of p) cur false t2))); [| |exact HW].
-    - intros cur cont. apply wc_unfold.
-    - intros cur ty0. apply cmp_unfold.
+    exact HW.
   Qed.
 End FLf.
